@@ -74,6 +74,7 @@ package value
 // memo fields of lists (items, itemsPresent, iterable), value-stack storage, and objects it allocates itself.
 
 //@ interface-contract Value.ToString
+//@   option no-impl-check
 //@   assigns any List.items, any List.itemsPresent, any List.iterable, any funcGen.stackStorage[Value].data, any []Value
 //@ interface-contract Value.ToList
 //@   assigns nothing
@@ -83,3 +84,70 @@ package value
 //@   assigns nothing
 //@ interface-contract Value.GetType
 //@   assigns nothing
+
+// ---------------------------------------------------------------- maps: one abstract view for every MapStorage (C13)
+//
+// mhas / mget / mcard are the abstract finite map a storage denotes. Get and Size of every implementation are verified
+// against them (behavioural subtyping of the interface contract), with the view of each representation given by
+// the definitional axioms below.
+
+//@ ghost func mhas(m MapStorage, k string) bool
+//@ ghost func mget(m MapStorage, k string) Value
+//@ ghost func mcard(m MapStorage) int
+
+//@ interface-contract MapStorage.Get
+//@   property C13
+//@   safety C13
+//@   ensures[present] result1 == mhas(self, key)
+//@   ensures[value] result1 ==> result0 == mget(self, key)
+//@   assigns nothing
+
+//@ interface-contract MapStorage.Size
+//@   property C13
+//@   safety C13
+//@   ensures[card] result == mcard(self)
+//@   assigns nothing
+
+//@ axiom view_empty: forall e emptyMapStorage, k string :: !mhas(box(e), k)
+//@ axiom card_empty: forall e emptyMapStorage :: mcard(box(e)) == 0
+//@ axiom card_nonneg: forall m MapStorage :: mcard(m) >= 0
+
+// Map{m}: the value wrapper around a storage denotes the storage's map
+//@ representation Map: self.m != nil
+//@ axiom view_map: forall v Map, k string :: mhas(box(v), k) == mhas(v.m, k) && mget(box(v), k) == mget(v.m, k)
+//@ axiom card_map: forall v Map :: mcard(box(v)) == mcard(v.m)
+
+// AppendMap{key, value, parent}: parent plus one new key
+//@ type-invariant AppendMap: self.parent != nil
+//@ type-invariant AppendMap: !mhas(self.parent, self.key)
+//@ axiom view_append: forall a AppendMap, k string :: mhas(box(a), k) == (k == a.key || mhas(a.parent, k)) && mget(box(a), k) == ite(k == a.key, a.value, mget(a.parent, k))
+//@ axiom card_append: forall a AppendMap :: !mhas(a.parent, a.key) ==> mcard(box(a)) == mcard(a.parent)+1
+
+// MergeMap{a, b}: disjoint union
+//@ type-invariant MergeMap: self.a != nil && self.b != nil
+//@ type-invariant MergeMap: forall k string :: !(mhas(self.a, k) && mhas(self.b, k))
+//@ axiom view_merge: forall m MergeMap, k string :: mhas(box(m), k) == (mhas(m.a, k) || mhas(m.b, k)) && mget(box(m), k) == ite(mhas(m.a, k), mget(m.a, k), mget(m.b, k))
+//@ axiom card_merge: forall m MergeMap :: (forall k string :: !(mhas(m.a, k) && mhas(m.b, k))) ==> mcard(box(m)) == mcard(m.a)+mcard(m.b)
+
+// ReplaceMap{orig, rep}: the keys of orig, each with the value from rep where rep has the key
+//@ type-invariant ReplaceMap: self.orig != nil && self.rep != nil
+//@ axiom view_replace: forall m ReplaceMap, k string :: mhas(box(m), k) == mhas(m.orig, k) && mget(box(m), k) == ite(mhas(m.rep, k), mget(m.rep, k), mget(m.orig, k))
+//@ axiom card_replace: forall m ReplaceMap :: mcard(box(m)) == mcard(m.orig)
+
+// RealMap: the Go map itself (frozen once it is used as a storage)
+//@ representation RealMap: (forall k string :: mhas(box(self), k) == haskey(self, k) && (haskey(self, k) ==> mget(box(self), k) == self[k])) && mcard(box(self)) == len(self)
+
+// bin (binning descriptions): "str" always, "min"/"max" when the bin is bounded on that side
+//@ axiom view_bin: forall b bin, k string :: mhas(box(b), k) == (k == "str" || (k == "min" && b.IsMin) || (k == "max" && b.IsMax))
+//@ ghost func binString(b bin) string
+//@ axiom get_bin: forall b bin :: mget(box(b), "min") == box(Float(b.Min)) && mget(box(b), "max") == box(Float(b.Max)) && mget(box(b), "str") == box(String(binString(b)))
+//@ func (b bin) String
+//@   property C13
+//@   ensures result == binString(b)
+//@   assigns nothing
+//@   trusted
+//@ axiom card_bin: forall b bin :: mcard(box(b)) == 1 + ite(b.IsMin, 1, 0) + ite(b.IsMax, 1, 0)
+
+// ListMap (package listMap): a slice of key/value entries, keys pairwise different
+//@ representation listMap.ListMap[Value]: forall i in 0..len(self) :: forall j in 0..len(self) :: i != j ==> self[i].key != self[j].key
+//@ representation listMap.ListMap[Value]: (forall k string :: mhas(box(self), k) == (exists i in 0..len(self) :: self[i].key == k)) && (forall i in 0..len(self) :: mget(box(self), self[i].key) == self[i].value) && mcard(box(self)) == len(self)
